@@ -221,7 +221,8 @@ def plan(tier, seed):
     depth = 7 if tier == "quick" else 10
     shards.append({"part": "layer-rule", "depth": depth, "bound": f"LayerRule BFS depth<={depth}"})
     shards.append({"part": "tla", "bound": "TLC LayerBuilder model + conformance replay"})
-    return {"shards": shards, "require_nonzero": ["REJECT:ERR", "ACCEPT:OK", "tla:states"]}
+    shards.append({"part": "tla-layer-rule", "bound": "TLC LayerRuleBuilder model + conformance replay"})
+    return {"shards": shards, "require_nonzero": ["REJECT:ERR", "ACCEPT:OK", "tla:states", "layer-rule-tla:states", "layer-rule-tla:REJECT:ERR", "layer-rule-tla:ACCEPT:OK"]}
 
 
 def run_shard(shard, tier, seed):
@@ -273,6 +274,13 @@ def run_shard(shard, tier, seed):
         res.sample({"history": [["based_on"], ["layers_that"], ["named", "A"], ["named", "B"]], "class_of_last_call": "REJECT"})
         for v in res.violations:
             v["case"]["part"] = "layer-rule"
+    elif shard["part"] == "tla-layer-rule":
+        import sys
+
+        from .. import conform_layerrule_tla
+        from . import c13
+
+        conform_layerrule_tla.run(res, tier, c13, sys.modules[__name__], "builder")
     else:
         from .. import conform_tla
 
